@@ -1,6 +1,7 @@
 package props
 
 import (
+	"bytes"
 	"errors"
 	"fmt"
 	"reflect"
@@ -258,6 +259,10 @@ func (p c15) Run(c *core.Ctx, idx int) {
 		}
 	}
 
+	// in every other case one writer per configuration writes all the documents of the case, one after the other (what a
+	// writer remembers from one document must not show in the next)
+	var kept [8]*nodeutil.JSONWtr
+	reuse := idx%2 == 0
 	for _, st := range starts {
 		var sel *node.Selection
 		var err error
@@ -293,7 +298,19 @@ func (p c15) Run(c *core.Ctx, idx int) {
 			cfgName := fmt.Sprintf("pretty=%v,enumids=%v,qualified=%v", w.Pretty, w.EnumAsIds, w.QualifyNamespace)
 			c.Eval()
 			var js string
-			if c.Guard("JSONWtr.JSON start="+st.kind+" "+cfgName, func() { js, err = w.JSON(sel) }) {
+			if c.Guard("JSONWtr.JSON start="+st.kind+" "+cfgName, func() {
+				if !reuse {
+					js, err = w.JSON(sel)
+					return
+				}
+				if kept[cfg] == nil {
+					kept[cfg] = &nodeutil.JSONWtr{Pretty: w.Pretty, EnumAsIds: w.EnumAsIds, QualifyNamespace: w.QualifyNamespace}
+				}
+				buf := new(bytes.Buffer)
+				kept[cfg].Out = buf
+				err = sel.InsertInto(kept[cfg].Node())
+				js = buf.String()
+			}) {
 				continue
 			}
 			if err != nil {
